@@ -734,7 +734,29 @@ def crate_callees(ctx, c):
     if c.item in ('collect', 'from_iter') and c.gargs:
         ty = c.gargs[-1] if c.item == 'collect' else c.gargs[0]
         return [x for x in ctx.F.method(ty, 'from_iter', trait='FromIterator') if x.kind == 'fn']
+    # `x.into()` / `x.try_into()` are std's blanket impls over the crate's `From<T> for U` / `TryFrom<T> for U`
+    if c.item in ('into', 'try_into') and (c.trait or '').endswith(('convert::Into', 'convert::TryInto')) and len(c.gargs) >= 2:
+        src, dst = c.gargs[0], c.gargs[1]
+        tr, it = ('From', 'from') if c.item == 'into' else ('TryFrom', 'try_from')
+        return [x for x in ctx.F.method(dst, it, trait=tr, targs=[src]) if x.kind == 'fn']
     return []
+
+
+def cone_plus(ctx, b, depth=4):
+    """call-graph cone of b, also through the calls the fact driver leaves at std's generic entry points
+    (`.into()`, `.collect::<T>()`, `T::from_iter`): crate_callees resolves them to the crate's impls"""
+    seen = {}; work = [(b, 0)]
+    while work:
+        x, d = work.pop()
+        for cb in cone_of(ctx, x):
+            if cb.name in seen: continue
+            seen[cb.name] = cb
+            if d >= depth: continue
+            for c in cb.calls:
+                if ctx.F.bodies.get(c.path) is not None or ctx.F.bodies.get(c.name) is not None: continue     # already in the cone
+                for y in crate_callees(ctx, c):
+                    if y.name not in seen: work.append((y, d + 1))
+    return list(seen.values())
 
 
 def call_sink_params(ctx, c, _depth=0):
@@ -1731,7 +1753,7 @@ def unsorted_constructions(ctx, b):
 def cone_constructions(ctx, b):
     """unsorted constructions / number of constructions of SortedIds in the call-graph cone of b"""
     probs = []; n = 0
-    for cb in cone_of(ctx, b):
+    for cb in cone_plus(ctx, b):
         if cb.kind == 'fn' and (cb.hdr.get('trait') or '').endswith('Clone'): continue      # derived Clone copies a sorted vector
         bd, k = unsorted_constructions(ctx, cb); n += k
         probs += ['%s: %s' % (cb.name.split('::')[-1] if cb.kind == 'fn' else 'closure in ' + cb.name.split('::')[-2], w) for bi, w in bd]
